@@ -87,7 +87,8 @@ fallback={
  "TOK-8":"Online/Offline signals flip in pairs",
  "TOK-16":"Ping withdraws its callback without waiting",
 }
-for k,v in fallback.items(): titles.setdefault(k,v)
+for k,v in fallback.items():
+    if titles.get(k) in (None,'(see §3)'): titles[k]=v
 lst=subprocess.run(['/verif/bin/mqttverif','list'],capture_output=True,text=True).stdout
 props=collections.defaultdict(list)
 for l in lst.splitlines():
